@@ -151,6 +151,30 @@ def rule_render_total(ctx, rep, facts):
             r = cfg.cls.lookup('render')[1]
             for cls in sorted(uni, key=lambda c: c.short):
                 tasks.append((model, cfg, facts, cls.name, r, cls))
+    # helpers that walk a token's descendants themselves (render_to_plain for an image description): every inline
+    # token class can be among the descendants, so the helper is analysed on each of them
+    span_base = model.classes.get(PKG + '.span_token.SpanToken')
+    for cfg in ctx.configs():
+        if cfg.error is not None or span_base is None:
+            continue
+        mapped = {f.qualname for f in cfg.render_map.values() if isinstance(f, FuncInfo)}
+        seen_h = set()
+        for c in cfg.cls.mro():
+            if not isinstance(c, ClassInfo):
+                continue
+            for name, fi in c.methods.items():
+                hit = cfg.cls.lookup(name)
+                if hit is None or hit[1] is not fi or fi.qualname in mapped or name in seen_h or len(fi.params()) != 2:
+                    continue
+                recursive = any(isinstance(x, ast.Attribute) and x.attr == name and isinstance(x.value, ast.Name)
+                                and x.value.id == fi.params()[0] for x in ast.walk(fi.node))
+                reads_children = any(isinstance(x, ast.Attribute) and x.attr == 'children' for x in ast.walk(fi.node))
+                if not (recursive and reads_children):
+                    continue
+                seen_h.add(name)
+                for cls in sorted(universe(cfg, facts), key=lambda c_: c_.short):
+                    if cls.is_subclass_of(span_base):
+                        tasks.append((model, cfg, facts, cls.name, fi, cls))
     results = pmap(_render_task, tasks)
     n_methods = set()
     for (model_, cfg, facts_, key, func, cls), (k, fshort, recs, n) in zip(tasks, results):
